@@ -5,6 +5,7 @@ use e5_harness::*;
 use hydro_lang::live_collections::stream::{ExactlyOnce, TotalOrder};
 use hydro_lang::prelude::*;
 
+#[cfg(stageleft_runtime)]
 #[test]
 fn probe0() {
     let t0 = Instant::now();
